@@ -393,3 +393,61 @@ class BuilderRun(Harness):
 register(Lower())
 register(Yields())
 register(BuilderRun())
+
+
+
+class SerdeRegistryHarness(Harness):
+    """What a task produces is what its consumers (and the caller) receive: through executor.serde with a custom serde registered
+    for one class, values of exactly that class, of a subclass, of an unrelated class and builtins all come back equal and of
+    the same type."""
+
+    name = "serde-registry"
+    engine = "E1-crosshair"
+    properties = ("C10", "C01")
+    rule = "one path = (which classes have a registered serde, value kind); non-trivial = a serde is registered for a base class of the value"
+    assumptions = ["cloudpickle is trusted"]
+    outside = []
+
+    def shards(self, tier):
+        return [{}]
+
+    def budget(self, tier):
+        return 60.0
+
+    def bounds(self, tier):
+        return {"values": ["Grid", "MaskedGrid (subclass of Grid)", "Other", "int 0", "tuple"], "registered": "none / Grid / Grid and Other"}
+
+    def functions(self):
+        import cascade.executor.serde as serde
+
+        return [serde.ser_output, serde.des_output, serde.SerdeRegistry]
+
+    def body(self, ch, params):
+        import cascade.executor.serde as serde
+        from vf import serde_types as T
+
+        with ch.untraced():
+            old = dict(serde.SerdeRegistry.serde)
+            try:
+                serde.SerdeRegistry.serde.clear()
+                reg = ch.pick(3, "registered")
+                if reg >= 1:
+                    serde.SerdeRegistry.register(T.Grid, "vf.serde_types.ser_grid", "vf.serde_types.des_grid")
+                if reg >= 2:
+                    serde.SerdeRegistry.register(T.Other, "cloudpickle.dumps", "cloudpickle.loads")
+                v = ch.choose([T.Grid([1, 2, 3]), T.MaskedGrid([1, 2, 3], [0, 1, 0]), T.Other(5), 0, (1, "a")], "value")
+                ch.note("case", {"registered": reg, "value": repr(v)[:60]})
+                ch.note("nontrivial", reg >= 1 and isinstance(v, T.MaskedGrid))
+                try:
+                    raw, deser_fun = serde.ser_output(v, "Any")
+                    back = serde.des_output(bytes(raw), "Any", deser_fun)
+                except Exception as e:
+                    raise Violation(f"serde-raised-{type(e).__name__}", f"{v!r}: {e}")
+                if type(back) is not type(v) or back != v:
+                    raise Violation("value-changed-between-producer-and-consumer", f"{v!r} came back as {back!r} (registered: {reg})")
+            finally:
+                serde.SerdeRegistry.serde.clear()
+                serde.SerdeRegistry.serde.update(old)
+
+
+register(SerdeRegistryHarness())
